@@ -33,6 +33,9 @@ func verifFresh(x interface{}) bool { return true }
 // verifSeparate(a, b): a and b are different memory objects (assumed of inputs, decided symbolically).
 func verifSeparate(a, b interface{}) bool { return true }
 
+// verifBufOK(b): bytes.Buffer's own invariant 0 <= off <= len(buf) (decided symbolically; always true at run time).
+func verifBufOK(b interface{}) bool { return true }
+
 // verifVisited(m, k): during a range over map m, key k has already been produced (ghost; decided symbolically).
 func verifVisited(m interface{}, k int) bool { return true }
 
